@@ -222,7 +222,10 @@ fn unique_query(r: &mut Rng, cat: &Catalog) -> String {
     let num: Vec<&ColDef> = t.cols.iter().filter(|c| c.is_numeric()).collect();
     let anyc = r.pick(&t.cols);
     let c2 = r.pick(&t.cols);
-    match r.below(10) {
+    match r.below(12) {
+        // functions of random(): a draw is unique, a function of it need not be
+        10 => format!("SELECT (RANDOM() > 0.5) AS coin, (- RANDOM()) AS neg, id FROM {}", t.name),
+        11 => format!("SELECT CASE WHEN RANDOM() > 0.5 THEN 1 ELSE 0 END AS coin, id FROM {}", t.name),
         0 => format!("SELECT id, CAST(id AS FLOAT) AS f, (id + 1) AS g, (- id) AS h FROM {}", t.name),
         1 if !num.is_empty() => format!("SELECT CAST(id AS TEXT) AS s, ABS({}) AS a, id * 0 AS z FROM {}", r.pick(&num).name, t.name),
         2 => format!("SELECT {} AS k, COUNT(*) AS n FROM {} GROUP BY {}", anyc.name, t.name, anyc.name),
@@ -241,7 +244,18 @@ fn size_query(r: &mut Rng, cat: &Catalog) -> String {
     let t = r.pick(&cat.tables);
     let t2 = r.pick(&cat.tables);
     let c = r.pick(&t.cols);
-    match r.below(10) {
+    match r.below(14) {
+        // outer joins that match nothing, against a side of at most 0 / 1 / 2 rows: every row of a preserved side comes out
+        10 | 11 | 12 => {
+            let kind = *r.pick(&["FULL JOIN", "LEFT JOIN", "RIGHT JOIN"]);
+            let lim = r.below(3);
+            if r.bool() {
+                format!("SELECT l.id AS a, v.rid AS b FROM {} AS l {} (SELECT id AS rid FROM {} LIMIT {}) AS v ON l.id = v.rid + 1000", t.name, kind, t2.name, lim)
+            } else {
+                format!("SELECT v.rid AS a, r.id AS b FROM (SELECT id AS rid FROM {} LIMIT {}) AS v {} {} AS r ON r.id = v.rid + 1000", t2.name, lim, kind, t.name)
+            }
+        }
+        13 => format!("SELECT l.id AS a, r.id AS b FROM {} AS l FULL JOIN {} AS r ON l.id = r.id + 1000", t.name, t2.name),
         0 => format!("SELECT COUNT(*) AS n FROM {}", t.name),
         1 => format!("SELECT COUNT(*) AS n, MAX(id) AS m FROM {} WHERE id < 0", t.name),
         2 => format!("SELECT l.id AS a, r.id AS b FROM {} AS l LEFT JOIN {} AS r ON l.id = r.id", t.name, t2.name),
